@@ -11,7 +11,7 @@
 From Coq Require Import List NArith Bool.
 From TG.Model Require Import CoreAst Scope BangOps Indexer.
 From TG.Model Require Import ScopeSpec.
-From TG.Proofs Require Import DiagLocal ScopeSim ScopeSimRec ScopeSimWs.
+From TG.Proofs Require Import DiagLocal ScopeSim ScopeSimRec ScopeSimWs IndexerTotal.
 Import ListNotations.
 Open Scope N_scope.
 
@@ -232,29 +232,29 @@ Print Assumptions C13_visited_all_partial.
     no "not found" diagnostic on a well-scoped workspace of the fragment, and every use the resolver lists is
     visited. *)
 Theorem C13_sound_no_not_found_workspace_partial : forall w,
-    frag_ws w = true -> well_scoped w = true -> s_bad (index_ws w) = false ->
+    frag_ws w = true -> well_scoped w = true ->
     forall d, In d (s_diags (index_ws w)) -> nf_kind (snd d) = false.
 Proof.
-  intros w Hf HR Hb d Hin.
+  intros w Hf HR d Hin. pose proof (index_ws_total w) as Hb.
   destruct (workspace_resolution w Hf HR Hb) as [_ Hnf].
   destruct (nf_kind (snd d)) eqn:E; [|reflexivity].
   assert (In d (nf (index_ws w))) by (unfold nf; apply filter_In; split; assumption).
   rewrite Hnf in H. destruct H.
 Qed.
 Check C13_sound_no_not_found_workspace_partial : forall w,
-    frag_ws w = true -> well_scoped w = true -> s_bad (index_ws w) = false ->
+    frag_ws w = true -> well_scoped w = true ->
     forall d, In d (s_diags (index_ws w)) -> nf_kind (snd d) = false.
 Print Assumptions C13_sound_no_not_found_workspace_partial.
 
 Theorem C13_visited_all_workspace_partial : forall w u,
-    frag_ws w = true -> well_scoped w = true -> s_bad (index_ws w) = false ->
+    frag_ws w = true -> well_scoped w = true ->
     In u (spec_uses w) -> In u (s_uses (index_ws w)).
 Proof.
-  intros w u Hf HR Hb Hin.
+  intros w u Hf HR Hin. pose proof (index_ws_total w) as Hb.
   destruct (workspace_resolution w Hf HR Hb) as [Hu _].
   rewrite <- Hu in Hin. rewrite <- in_rev in Hin. exact Hin.
 Qed.
 Check C13_visited_all_workspace_partial : forall w u,
-    frag_ws w = true -> well_scoped w = true -> s_bad (index_ws w) = false ->
+    frag_ws w = true -> well_scoped w = true ->
     In u (spec_uses w) -> In u (s_uses (index_ws w)).
 Print Assumptions C13_visited_all_workspace_partial.
